@@ -949,6 +949,7 @@ class ExprRewriter(ast.NodeTransformer, EmitterMixin):
         node.body = [self.visit(stmt) for stmt in node.body]
         return node
 
+    @fast.location_of_arg
     def visit_JoinedStr(self, node: ast.JoinedStr):
         orig_node = node
         transformed: ast.AST = node
